@@ -15,10 +15,12 @@ from gen.progs import gen_program
 from gen.rng import Rng
 from lib.vlib import Check, NCPU, check_props, coq_eval_many, coq_result, vh
 
-CHAIN = ['ccp', 'lvn', 'dce']            # every pass is applied to the output of the previous one
-# optimize_function_for_rounds with only local value numbering switched on (lib.rs): Passes.pipeline true
+CHAIN = ['ccp', 'cse', 'lvn', 'dce']     # one round; every pass is applied to the output of the previous one
+# optimize_function_for_rounds with cse and lvn switched on (lib.rs), replayed pass by pass
 FULL_CHAIN = CHAIN + CHAIN + ['ccp', 'dce', 'ccp']
-MODELLED = {'ccp': 'PCcp', 'dce': 'PDce', 'lvn': 'PLvn', 'pipeline': 'PPipe'}
+# the real driver through verif::run_function_rounds (hook 1b60883): [lvn only = Passes.pipeline true, cse + lvn]
+ROUNDS = ['rounds:lvn', 'rounds:lvn+cse']
+MODELLED = {'ccp': 'PCcp', 'dce': 'PDce', 'lvn': 'PLvn', 'cse': 'PCse', 'pipeline': 'PPipe'}
 HEADER = ('From Coq Require Import ZArith NArith List Bool. Import ListNotations.\n'
           'From SV Require Import Common.Int32 C02deep.Syntax C02deep.Sem C02deep.Passes C02deep.Corr.\n'
           'Open Scope Z_scope.\n')
@@ -34,6 +36,10 @@ def g_expr(e):
     if k == 's':
         return '(EStr %d%%N)' % v
     return '(EVar %d%%N)' % v
+
+
+def g_names(ns):
+    return '[' + '; '.join('%d%%N' % n for n in ns) + ']'
 
 
 def g_opt(n):
@@ -108,7 +114,7 @@ def programs(tier, seed):
 
 
 def dump(progs):
-    jobs = [{'id': i, 'sources': p['sources'], 'entry': p['entry'], 'passes': FULL_CHAIN} for i, p in enumerate(progs)]
+    jobs = [{'id': i, 'sources': p['sources'], 'entry': p['entry'], 'passes': FULL_CHAIN, 'rounds': ROUNDS} for i, p in enumerate(progs)]
     chunks = [jobs[i::NCPU] for i in range(NCPU)]
 
     def run_chunk(c):
@@ -336,9 +342,18 @@ def deep(ck, tier, seed):
             for k, pn in enumerate(CHAIN):
                 if vs[k] is None or vs[k + 1] is None or pn not in MODELLED:
                     continue
-                cases.append((pn, vs[k], vs[k + 1], {'program': i, 'function': f['name']}))
-            if len(vs) == len(FULL_CHAIN) + 1 and vs[0] is not None and vs[-1] is not None:
-                cases.append(('pipeline', vs[0], vs[-1], {'program': i, 'function': f['name']}))
+                cases.append((pn, vs[k], vs[k + 1], {'program': i, 'function': f['name']}, f['fresh'][k] or []))
+            rv = f.get('rounds') or [None, None]
+            if vs[0] is not None and rv[0] is not None:
+                # the real driver optimize_function_for_rounds (lvn only) against Passes.pipeline
+                cases.append(('pipeline', vs[0], rv[0], {'program': i, 'function': f['name']}, []))
+            if vs[0] is not None and rv[1] is not None and len(vs) == len(FULL_CHAIN) + 1 and vs[-1] is not None:
+                # the real driver (cse + lvn) against the same passes replayed one by one in the order read from lib.rs
+                ck.count('deep:driver-order:' + ('same' if vs[-1] == rv[1] else 'DIFFERENT'))
+                if vs[-1] != rv[1]:
+                    ck.disagree('C02deep: optimize_function_for_rounds (cse + lvn) is not the chain %s' % FULL_CHAIN,
+                                {'function': f['name'], 'sources': p['sources']}, vs[-1], rv[1],
+                                how='vh mir-dump with "rounds": %s' % ROUNDS)
     # synthetic functions of the fragment through the real passes (replay mode of vh mir-dump)
     syn = synthetic(tier, seed)
     cur = list(syn)
@@ -359,12 +374,13 @@ def deep(ck, tier, seed):
                 nxt.append(None)
                 continue
             if step < len(CHAIN):
-                cases.append((pn, f0, r['after'], {'synthetic': k}))
+                cases.append((pn, f0, r['after'], {'synthetic': k}, r.get('fresh', [])))
             nxt.append(r['after'])
         cur = nxt
-    for k, (f0, f9) in enumerate(zip(syn, cur)):
-        if f0 is not None and f9 is not None:
-            cases.append(('pipeline', f0, f9, {'synthetic': k}))
+    res_r = real_pass_batch(list(syn), ROUNDS[0])
+    for k, (f0, r) in enumerate(zip(syn, res_r)):
+        if f0 is not None and r is not None and 'after' in r:
+            cases.append(('pipeline', f0, r['after'], {'synthetic': k}, []))
     # the MIR-level witness of fixed finding C02-ccp-unchanging-loop-variable-raw-bind (Props.C02deep_ccp_old2_refuted)
     wr = replay_on_real_pass(WITNESS_RAW_INIT, 'ccp')
     still = 'after' in wr and json.dumps(['v', 2]) in json.dumps(wr['after'])
@@ -389,8 +405,8 @@ def deep(ck, tier, seed):
     shards = [order[s::nshard] for s in range(nshard)]
     jobs = []
     for si, idxs in enumerate(shards):
-        body = HEADER + 'Definition cs : list (pass * func * func) := [\n%s].\nEval vm_compute in (tie_cases cs).\n' % ';\n'.join(
-            '(%s, %s, %s)' % (MODELLED[cases[j][0]], g_func(cases[j][1]), g_func(cases[j][2])) for j in idxs)
+        body = HEADER + 'Definition cs : list (pass * list name * func * func) := [\n%s].\nEval vm_compute in (tie_cases cs).\n' % ';\n'.join(
+            '(%s, %s, %s, %s)' % (MODELLED[cases[j][0]], g_names(cases[j][4]), g_func(cases[j][1]), g_func(cases[j][2])) for j in idxs)
         jobs.append(('c02deep_%d' % si, body))
     outs = coq_eval_many(jobs, timeout=1500)
     stats = {}
@@ -404,7 +420,7 @@ def deep(ck, tier, seed):
             ck.obligation('model-evaluation(C02deep shard %d)' % si, False, 'expected %d rows, got %d' % (len(shards[si]), len(rows)))
             continue
         for j, row in zip(shards[si], rows):
-            pn, before, after, where = cases[j]
+            pn, before, after, where, _sup = cases[j]
             status, wf, unproved, escape, sem_ok, sem_bad, inv_bad = row      # `unproved` = Passes.dead_final_operands (ccp only)
             st = stats.setdefault(pn + (':synthetic' if 'synthetic' in where else ''), {'cases': 0, 'agree': 0, 'declined': 0, 'wf': 0, 'proved_path': 0, 'dead_final_operands': 0, 'changed': 0, 'sem_ok': 0})
             st['cases'] += 1
